@@ -807,6 +807,14 @@ func retriesFor(spec *meta.Spec, class string) int {
 		// and then only the class recurs.
 		return 8
 	}
+	if spec.Engine == "multi" {
+		// The race build's sync.Pool drops one Put in four at the runtime's
+		// whim (sync.Pool.Put under race.Enabled): a change that adds a real
+		// sync.Pool behaves the same way in most executions but not in all.
+		// The unchanged tree has no sync.Pool on these paths and replays
+		// exactly (self-test); here the class must recur.
+		return 8
+	}
 	return 0
 }
 
